@@ -275,7 +275,8 @@ def availLoop : Nat → Cfg → List Nat → Cfg × Bool
   | 0, g, _ => (g, false)
   | fuel + 1, g, vis =>
     let (g', vis', ch) := availSweep g vis
-    if ch then availLoop fuel g' vis' else (g', true)
+    -- nodes visited for the first time in this sweep were ignored by the nodes before them
+    if ch || vis'.length != vis.length then availLoop fuel g' vis' else (g', true)
 
 def availFuel (g : Cfg) : Nat := 64 * (g.nodes.size + 2)
 
@@ -286,7 +287,7 @@ def availLoopV : Nat → Cfg → List Nat → Cfg × List Nat × Bool
   | 0, g, vis => (g, vis, false)
   | fuel + 1, g, vis =>
     let (g', vis', ch) := availSweep g vis
-    if ch then availLoopV fuel g' vis' else (g', vis', true)
+    if ch || vis'.length != vis.length then availLoopV fuel g' vis' else (g', vis', true)
 
 def availableV (g : Cfg) : Cfg × List Nat × Bool := availLoopV (availFuel g) g []
 
